@@ -217,8 +217,8 @@ func (b *BitArray) GetBitArray() []uint32 {
 
 func (b *BitArray) Reverse() {
 	newBits := make([]uint32, len(b.bits))
-	len := (b.size - 1) / 32
-	oldBitsLen := len + 1
+	oldBitsLen := (b.size + 31) / 32 // words in use; 0 for an empty array
+	len := oldBitsLen - 1
 	for i := 0; i < oldBitsLen; i++ {
 		newBits[len-i] = bits.Reverse32(b.bits[i])
 	}
